@@ -97,6 +97,15 @@ func (f *flaky) Write(p []byte) (int, error) {
 
 var errFlaky = errors.New("keycat: injected write error")
 
+// DecoySecret is the key material of the large decoy keyset that every binary / JSON writer object has written
+// before the judged write: it must not show up in any later output (leak scans include it).
+var DecoySecret = ref.KeyBytes("keycat-decoy-secret", 16384)
+
+func bigDecoy() *tinkpb.Keyset {
+	return &tinkpb.Keyset{PrimaryKeyId: 0x7E58, Key: []*tinkpb.Keyset_Key{{KeyId: 0x7E58, Status: tinkpb.KeyStatusType_ENABLED, OutputPrefixType: tinkpb.OutputPrefixType_TINK,
+		KeyData: &tinkpb.KeyData{TypeUrl: "type.googleapis.com/verif.keycat.BigDecoy", Value: bytes.Clone(DecoySecret), KeyMaterialType: tinkpb.KeyData_SYMMETRIC}}}}
+}
+
 func decoys() (*tinkpb.Keyset, *tinkpb.EncryptedKeyset) {
 	ks := &tinkpb.Keyset{PrimaryKeyId: 0x7E57, Key: []*tinkpb.Keyset_Key{{KeyId: 0x7E57, Status: tinkpb.KeyStatusType_ENABLED, OutputPrefixType: tinkpb.OutputPrefixType_TINK,
 		KeyData: &tinkpb.KeyData{TypeUrl: "type.googleapis.com/verif.keycat.Decoy", Value: []byte{1, 2, 3}, KeyMaterialType: tinkpb.KeyData_SYMMETRIC}}}}
@@ -189,6 +198,7 @@ func IOs() []IO {
 func (io IO) Write(h *keyset.Handle) (*Blob, error) {
 	b := &Blob{}
 	w, buf, arm := b.writer(io.Format, io.Kind == "encrypted")
+	skip := 0
 	if arm != nil {
 		// HISTORY of the writer object: while its disk was full, the SAME handle was written through it in the CLEAR
 		// (the attempt failed, nothing reached the disk). Whatever the next - possibly encrypted - write stores must
@@ -197,6 +207,11 @@ func (io IO) Write(h *keyset.Handle) (*Blob, error) {
 			_ = insecurecleartextkeyset.Write(h, w)
 		}
 		arm()
+		// ... and then a LARGER keyset (a cleartext decoy with a recognisable 16 KiB secret, DecoySecret) was written
+		// through it successfully. The judged write follows in the same stream; its output is what comes after.
+		if err := w.Write(bigDecoy()); err == nil {
+			skip = buf.Len()
+		}
 	}
 	var err error
 	switch io.API {
@@ -216,7 +231,7 @@ func (io IO) Write(h *keyset.Handle) (*Blob, error) {
 		panic("keycat: unknown API " + io.API)
 	}
 	if buf != nil {
-		b.Bytes = buf.Bytes()
+		b.Bytes = buf.Bytes()[skip:]
 	}
 	return b, err
 }
